@@ -1,6 +1,8 @@
 CONSTANTS
   MaxLen = 2
   MaxDim = 3
+  KindsB = {}
+  Rich = TRUE
 INIT Init
 NEXT Next
 INVARIANT LowerCorrect
